@@ -35,6 +35,23 @@ func ResolveFuncs(v ssa.Value) (fns []*ssa.Function, ok bool) {
 			for _, e := range x.Edges {
 				walk(e)
 			}
+		case *ssa.Call:
+			// a module helper that makes the function value (a closure factory): what it returns
+			callee := x.Call.StaticCallee()
+			if callee == nil || !isModuleFn(callee) || callee.Signature.Results().Len() != 1 {
+				ok = false
+				return
+			}
+			n := 0
+			for _, b := range callee.Blocks {
+				if ret, isRet := b.Instrs[len(b.Instrs)-1].(*ssa.Return); isRet && b != callee.Recover {
+					walk(returnedValue(ret, 0))
+					n++
+				}
+			}
+			if n == 0 {
+				ok = false
+			}
 		case *ssa.UnOp:
 			if x.Op != token.MUL {
 				ok = false
